@@ -430,7 +430,7 @@ Proof.
   pose proof all_sites_safe as H. rewrite forallb_forall in H. now apply H.
 Qed.
 
-(* ---------- which payloads the guards admit (syntactic sufficient conditions, from PyLitThm) ---------- *)
+(* ---------- which payloads the guards accept (syntactic sufficient conditions, from PyLitThm) ---------- *)
 
 Definition mk (c : ctx) (sa : san) (slot file : string) : site := {| s_slot := slot; s_file := file; s_ctx := c; s_san := sa |}.
 
